@@ -51,8 +51,38 @@ def digests_in_child(progs, hashseed):
     return json.loads(p.stdout)
 
 
+# programs aimed at every place where the compiler iterates over a collection whose order could depend on hashing:
+# element types of array literals, overload tables, string/label/function tables, global materialisation order
+HASH_PROGRAMS = [
+    ('mixed_literals', """
+empty o(const int[] a) { write("ints"); write(a[0]); }
+empty o(const byte[] a) { write("bytes"); write(a[0]); }
+empty o(const bool[] a) { write("bools"); }
+empty o(const string[] a) { write("strings"); }
+empty @is_you(int n, byte b) {
+    write([66, b][0]); write([b, 66][0]); write([n, b][1]); write(['a', 1, 2][0]); write([1, 'a', b][2]);
+    o([66, b]); o([b, 66]); o([1, 2]); o(['x', 'y']); o([b]); o([n, b]); o([true, n > 1]); o(["s", "t"]); o([1, 'c']);
+    const byte[] x = [66, b]; const int[] y = [66, b]; write(x[0]); write(y[0]);
+    writeln([b, 1, 'c', 300 - 45].length);
+}
+"""),
+    ('many_tables', """
+int g1 = 1; int g2 = 2; byte g3 = 'c'; bool g4 = true; string g5 = "five"; const int[] g6 = [6, 7]; int[] g7 = [8]; string[] g8 = ["a", "b", "c"];
+int f1(int x) { return x + g2; } int f2(int x) { return f3(x) + g1; } int f3(int x) { return x * 2; }
+byte f4(byte x) { return x; } bool f5(bool x) { return not x; } string f6(string s) { return s; }
+empty w(int x) { write(x); } empty w(byte x) { write(x); } empty w(bool x) { write(x); } empty w(string x) { write(x); } empty w(const int[] x) { write(x.length); }
+empty @is_you() {
+    w(g5); w("zeta"); w("alpha"); w("five"); w(f6("omega")); w(g8[1]); w(g8[2]); w(g8[0]);
+    w(f2(g7[0])); w(f1(g6[1])); w(f4(g3)); w(f5(g4)); w(g6); w(g7); w([1, 2, 3]);
+    if (g4 and f5(false)) { w("beta"); } else { w("gamma"); }
+    for (int i = 0; i < 2; i += 1) { while (g1 < 3) { g1 += 1; if (g1 == 2) { continue; } w("delta"); } }
+}
+"""),
+]
+
+
 def seeds():
-    return [[n, s] for n, s in c12.layout_seeds()]
+    return [[n, s] for n, s in c12.layout_seeds()] + [[n, s] for n, s in HASH_PROGRAMS]
 
 
 def items(tier):
